@@ -12,7 +12,7 @@ use crate::vcases::ReqSpec;
 use crate::vw::{self, Pick, World};
 use ffi_support::ByteBuffer;
 use serde_json::{json, Value};
-use std::ffi::{CStr, CString};
+use std::ffi::{c_void, CStr, CString};
 use std::os::raw::c_char;
 
 #[repr(C)]
@@ -70,6 +70,9 @@ extern "C" {
     fn anoncreds_w3c_presentation_from_json(json: ByteBuffer, result_p: *mut usize) -> usize;
     fn anoncreds_key_correctness_proof_from_json(json: ByteBuffer, result_p: *mut usize) -> usize;
     fn anoncreds_create_credential_offer(schema_id: *const c_char, cred_def_id: *const c_char, kcp: usize, result_p: *mut usize) -> usize;
+    fn anoncreds_credential_definition_private_from_json(json: ByteBuffer, result_p: *mut usize) -> usize;
+    fn anoncreds_credential_request_from_json(json: ByteBuffer, result_p: *mut usize) -> usize;
+    fn anoncreds_create_credential(cred_def: usize, cred_def_private: usize, offer: usize, request: usize, names: FfiList<*const c_char>, raws: FfiList<*const c_char>, encs: FfiList<*const c_char>, revocation: *const c_void, result_p: *mut usize) -> usize;
     fn anoncreds_process_credential(cred: usize, md: usize, link_secret: *const c_char, cred_def: usize, rev_reg_def: usize, result_p: *mut usize) -> usize;
     fn anoncreds_update_revocation_status_list_timestamp_only(timestamp: i64, list: usize, result_p: *mut usize) -> usize;
     fn anoncreds_create_presentation(
@@ -195,6 +198,17 @@ fn ffi_verify(l: &Loaded, w3c: bool, pres: usize, req: usize, schemas: &[usize],
         } else {
             anoncreds_verify_presentation(pres, req, FfiList::of(schemas), FfiList::of(&sidp), FfiList::of(cred_defs), FfiList::of(&cidp), FfiList::of(reg_defs), FfiList::of(&ridp), FfiList::of(lists), FfiList::empty(), out)
         }
+    }
+}
+
+/// legacy verification of a revocable presentation through the C ABI with a list of interval overrides
+fn ffi_verify_with_overrides(l: &Loaded, pres: usize, req: usize, sid: &str, cid: &str, ovr: &[(&str, i32, i32)], out: *mut i8) -> usize {
+    let (s, c, r) = (cs(sid), cs(cid), cs(vw::REG_ID));
+    let ids: Vec<CString> = ovr.iter().map(|(id, _, _)| cs(id)).collect();
+    let entries: Vec<FfiOverride> = ovr.iter().zip(ids.iter()).map(|((_, a, b), id)| FfiOverride { rev_reg_def_id: id.as_ptr(), requested_from_ts: *a, override_ts: *b }).collect();
+    unsafe {
+        anoncreds_verify_presentation(pres, req, FfiList::of(&[l.schema]), FfiList::of(&[s.as_ptr()]), FfiList::of(&[l.cred_def1]), FfiList::of(&[c.as_ptr()]),
+            FfiList::of(&[l.reg_def]), FfiList::of(&[r.as_ptr()]), FfiList::of(&[l.list0]), FfiList::of(&entries), out)
     }
 }
 
@@ -442,6 +456,92 @@ pub fn run(tier: &str, _seed: u64, outdir: &str) {
             anoncreds::verifier::verify_presentation(&p, &req, &ctx.schemas, &ctx.cred_defs, ctx.reg_defs.as_ref(), Some(vec![list]), None).ok()
         })();
         a(&format!("present-through-c-abi:timestamp-{}", ts), rc == 0 && native_ok == Some(true), &mut out);
+    }
+
+    // issuance through the C ABI: names / raw values / OPTIONAL encoded values are three index-aligned lists; a null or
+    // missing encoded value means "encode the raw value"
+    {
+        let c0 = &w.cds[0];
+        let mut cdp = 0usize;
+        unsafe { anoncreds_credential_definition_private_from_json(buf(&serde_json::to_value(&c0.cred_def_priv).unwrap()), &mut cdp) };
+        let (sidc, cidc) = (cs(&c0.schema_id), cs(&c0.cred_def_id));
+        let mut offer_h = 0usize;
+        unsafe { anoncreds_create_credential_offer(sidc.as_ptr(), cidc.as_ptr(), l.kcp0, &mut offer_h) };
+        let offer: Option<anoncreds::types::CredentialOffer> = get_json(offer_h).and_then(|v| serde_json::from_value(v).ok());
+        let names = ["name", "age", "sex", "height"];
+        let raws = ["Alex", "28", "male", "175"];
+        let variants: Vec<(&str, Vec<Option<&str>>)> = vec![
+            ("no-list", vec![]), ("full", vec![Some("11"), Some("28"), Some("33"), Some("175")]), ("all-null", vec![None, None, None, None]),
+            ("null-first", vec![None, Some("28"), Some("33"), Some("175")]), ("null-middle", vec![Some("11"), None, Some("33"), Some("175")]),
+            ("null-then-value-then-null", vec![None, Some("28"), None, Some("175")]), ("two-nulls-first", vec![None, None, Some("33"), Some("175")]),
+            ("short", vec![Some("11"), Some("28")]), ("short-with-null", vec![None, Some("28")]), ("null-last", vec![Some("11"), Some("28"), Some("33"), None]),
+        ];
+        for (vname, encs) in variants.iter() {
+            let equal = (|| -> Option<bool> {
+                let offer = offer.as_ref()?;
+                let (req, _md) = anoncreds::prover::create_credential_request(Some("entropy"), None, &c0.cred_def, &w.holders[0], "ls", offer).ok()?;
+                let mut req_h = 0usize;
+                if unsafe { anoncreds_credential_request_from_json(buf(&serde_json::to_value(&req).ok()?), &mut req_h) } != 0 {
+                    return Some(false);
+                }
+                // native: the documented rule
+                let mut mv = anoncreds::types::MakeCredentialValues::default();
+                for (i, (n, r)) in names.iter().zip(raws.iter()).enumerate() {
+                    match encs.get(i).cloned().flatten() {
+                        Some(e) => mv.add_encoded(*n, *r, e.to_string()),
+                        None => mv.add_raw(*n, *r).ok()?,
+                    }
+                }
+                let native_values: anoncreds::types::CredentialValues = mv.into();
+                let native = anoncreds::issuer::create_credential(&c0.cred_def, &c0.cred_def_priv, offer, &req, native_values, None).ok()?;
+                let nc: Vec<CString> = names.iter().map(|x| cs(x)).collect();
+                let np: Vec<*const c_char> = nc.iter().map(|c| c.as_ptr()).collect();
+                let rc_: Vec<CString> = raws.iter().map(|x| cs(x)).collect();
+                let rp: Vec<*const c_char> = rc_.iter().map(|c| c.as_ptr()).collect();
+                let ec: Vec<Option<CString>> = encs.iter().map(|x| x.map(cs)).collect();
+                let ep: Vec<*const c_char> = ec.iter().map(|c| c.as_ref().map(|c| c.as_ptr()).unwrap_or(std::ptr::null())).collect();
+                let mut ch = 0usize;
+                let rc = unsafe { anoncreds_create_credential(l.cred_def0, cdp, offer_h, req_h, FfiList::of(&np), FfiList::of(&rp), FfiList::of(&ep), std::ptr::null(), &mut ch) };
+                if rc != 0 {
+                    return Some(false);
+                }
+                let got = get_json(ch)?;
+                Some(got["values"] == serde_json::to_value(&native).ok()?["values"])
+            })();
+            a(&format!("create_credential:encoded-values-{}", vname), equal == Some(true), &mut out);
+        }
+    }
+    // verification with interval overrides: every entry of the list reaches the verifier, grouped by registry
+    {
+        let rreq2 = ReqSpec::new("80083").attr("a", "name").global((Some(120), Some(250))).build().unwrap();
+        if let Some((rpres2, _, _)) = vw::make_legacy(&w, &rreq2, &[Pick { cred: 1, attrs: vec![("a".into(), true)], preds: vec![], list: Some(0), inc: false }], &[], 0) {
+            let (mut ph, mut rh) = (0usize, 0usize);
+            unsafe {
+                anoncreds_presentation_from_json(buf(&serde_json::to_value(&rpres2).unwrap()), &mut ph);
+                anoncreds_presentation_request_from_json(buf(&serde_json::to_value(&rreq2).unwrap()), &mut rh);
+            }
+            let other_reg = "did:web:issuer1.example/reg/other";
+            let lists: Vec<(&str, Vec<(&str, i32, i32)>)> = vec![
+                ("none", vec![]), ("one-hit", vec![(vw::REG_ID, 120, 90)]), ("one-miss", vec![(vw::REG_ID, 200, 40)]),
+                ("two-needed-first", vec![(vw::REG_ID, 120, 90), (vw::REG_ID, 200, 40)]), ("two-needed-last", vec![(vw::REG_ID, 200, 40), (vw::REG_ID, 120, 90)]),
+                ("three-needed-middle", vec![(vw::REG_ID, 200, 40), (vw::REG_ID, 120, 90), (vw::REG_ID, 10, 5)]),
+                ("same-bound-twice", vec![(vw::REG_ID, 120, 130), (vw::REG_ID, 120, 90)]), ("same-bound-twice-reversed", vec![(vw::REG_ID, 120, 90), (vw::REG_ID, 120, 130)]),
+                ("other-registry-between", vec![(vw::REG_ID, 120, 90), (other_reg, 120, 130), (vw::REG_ID, 200, 40)]), ("other-registry-only", vec![(other_reg, 120, 90)]),
+            ];
+            for (oname, ovr) in lists.iter() {
+                let mut m: std::collections::HashMap<anoncreds::data_types::rev_reg_def::RevocationRegistryDefinitionId, std::collections::HashMap<u64, u64>> = Default::default();
+                for (id, a_, b_) in ovr.iter() {
+                    m.entry(anoncreds::data_types::rev_reg_def::RevocationRegistryDefinitionId::new_unchecked(id.to_string())).or_default().insert(*a_ as u64, *b_ as u64);
+                }
+                let native = vw::outcome_of(std::panic::catch_unwind(std::panic::AssertUnwindSafe(|| {
+                    anoncreds::verifier::verify_presentation(&rpres2, &rreq2, &ctx.schemas, &ctx.cred_defs, ctx.reg_defs.as_ref(), ctx.lists.clone(), Some(&m))
+                })));
+                let mut res: i8 = -1;
+                let rc = ffi_verify_with_overrides(&l, ph, rh, &sid, &cid1, ovr, &mut res);
+                let ffi = if rc != 0 { "err" } else if res == 1 { "accept" } else { "reject" };
+                a(&format!("verify:overrides-{}:{}", oname, native), native == ffi, &mut out);
+            }
+        }
     }
 
     // ---------- (B) malformed arguments, one child process each ----------
